@@ -159,7 +159,7 @@ class GeneratedAllSubsets(_Base):
             "GPOS single 1/2, pair 1/2, cursive, mark-base, mark-ligature, mark-mark, chaining; GDEF classes, ligature carets; script- and language-specific features; legacy kern with and without GPOS kern; "
             "composites; gvar+HVAR+MVAR with variable kerning/anchors (GDEF VarStore) and feature variations; COLR v0/v1 + CPAL; cmap format 14; opaque table) "
             "x EVERY non-empty subset of the mapped characters (<= 6) requested by unicodes= x {default options + every single applicable deviation of: layout_features */one/none, layout_scripts, layout_closure, retain_gids, notdef_glyph, notdef_outline, "
-            "recommended_glyphs, glyph_names, hinting, desubroutinize, name_IDs, name_languages, name_legacy, obfuscate_names, passthrough_tables, legacy_kern, harfbuzz_repacker on/off, recalc_bounds, recalc_average_width, recalc_max_context, drop_tables +GSUB/+GPOS, command-line loader; thorough: every pair of deviations}; "
+            "recommended_glyphs, glyph_names, hinting, desubroutinize, name_IDs, name_languages, name_legacy, obfuscate_names, passthrough_tables, legacy_kern, harfbuzz_repacker on/off, recalc_bounds, recalc_average_width, recalc_max_context, drop_tables +GSUB/+GPOS, command-line loader; thorough: every pair of deviations for requests of size <= 2 or co-size <= 1}; "
             "oracle: requested characters mapped to the original's glyph; all texts of length <= 3 over the retained characters shape to the same glyph names / advances / offsets at {default, axis min/max} under every script/language mode; glyphs HarfBuzz produces in the original exist; every kept glyph has the original outline and advance; "
             "no dangling glyph reference; retain_gids keeps ids; per-option postconditions; distinct = (font, request, options)")
     chunk = 24
@@ -177,28 +177,35 @@ class GeneratedAllSubsets(_Base):
         self._seed = seed
 
     def cases(self, tier, seed):
-        maxlen = 3
+        maxlen = 3 if tier == "quick" else -4  # thorough: 3, and 4 when at most 3 characters are retained
         for key in sorted(k for k in _FONTS if k.startswith("tiny:")):
             info = info_of(key)
             U = char_universe(info)
-            opts = K.option_sets(info, tier, seed, pairs=(tier == "thorough"))
+            opts = K.option_sets(info, tier, seed, pairs=False)
+            opts2 = K.option_sets(info, tier, seed, pairs=True)[len(opts):] if tier == "thorough" else []
             for req in nonempty_subsets(U):
                 if not any(c in info.cm for c in req):
                     continue  # variation selectors alone select no glyph: not a request
                 for optname, kw in opts:
                     yield [key, "unicodes", req, optname, kw, U, maxlen]
+                if len(req) <= 2 or len(req) >= len(U) - 1:
+                    for optname, kw in opts2:
+                        yield [key, "unicodes", req, optname, kw, U, maxlen]
 
     def bounds(self, tier, seed):
         return {"fonts": sum(1 for k in _FONTS if k.startswith("tiny:")), "max_characters": 6, "text_length": 3, "option_deviations": 2 if tier == "thorough" else 1}
 
 
-KIND_OPTS = ("default", "retain-gids", "no-layout-closure", "no-notdef-glyph", "glyph-names", "cli-loader", "features=*")
+KIND_OPTS = {"glyphs": ("default", "retain-gids", "no-layout-closure"),
+             "gids": ("default", "retain-gids", "no-layout-closure", "no-notdef-glyph", "cli-loader"),
+             "text": ("default", "retain-gids")}
+KIND_OPTS_THOROUGH = ("default", "retain-gids", "no-layout-closure", "no-notdef-glyph", "glyph-names", "cli-loader", "features=*", "notdef-outline")
 
 
 class GeneratedRequestKinds(_Base):
     name = "generated-request-kinds"
     rule = ("the generated fonts, requests by glyphs= (names) and gids=: every subset of size <= 2 and co-size <= 1 of ALL glyphs (mapped or not) and every non-empty subset of the mapped characters' glyphs; by text=: every non-empty subset of the characters plus one unmapped character; "
-            "x options {default, retain_gids, no layout closure, no .notdef, glyph_names, layout_features=*}; same oracle (requested glyphs exist; characters mapping to requested glyphs stay mapped); distinct = (font, kind, request, options)")
+            "x options {default, retain_gids, no layout closure; gids also: no .notdef, command-line loader; thorough: also glyph_names, layout_features=*, notdef_outline}; same oracle (requested glyphs exist; characters mapping to requested glyphs stay mapped); distinct = (font, kind, request, options)")
     chunk = 24
     required_witnesses = ("request by glyphs", "request by gids", "request by text", "retain_gids with emptied glyphs", "closure kept a glyph produced by GSUB type 4")
 
@@ -210,28 +217,30 @@ class GeneratedRequestKinds(_Base):
             info = info_of(key)
             U = char_universe(info)
             allopts = dict(K.option_sets(info, tier, seed, pairs=False))
-            opts = [(n, allopts[n]) for n in KIND_OPTS if n in allopts]
+            def opts_for(kind):
+                names = KIND_OPTS[kind] if tier == "quick" else KIND_OPTS_THOROUGH
+                # the command line loads glyph names when glyphs are given: no cli-loader there
+                return [(n, allopts[n]) for n in names if n in allopts and not (kind == "glyphs" and n == "cli-loader")]
+
             ng = len(info.order)
             mapped = sorted({info.index[g] for g in info.cm.values()})
             reqs = small_and_cosmall(range(ng)) + [r for r in nonempty_subsets(mapped) if len(r) > 2 and len(r) < ng - 1]
             for kind in ("glyphs", "gids"):
                 for req in reqs:
-                    for optname, kw in opts:
-                        if kind == "glyphs" and optname == "cli-loader":
-                            continue  # the command line loads names when glyphs are given
+                    for optname, kw in opts_for(kind):
                         yield [key, kind, req, optname, kw, U, 3]
             missing = 0x10FFFD
             for req in nonempty_subsets(U):
                 if not any(c in info.cm for c in req):
                     continue
-                for optname, kw in opts[:3]:
+                for optname, kw in opts_for("text")[:3]:
                     yield [key, "text", req + [missing], optname, kw, U, 3]
 
 
 class CorpusRequests(_Base):
     name = "corpus-requests"
     rule = ("corpus fonts (AOTS family: one font per lookup type.format group in quick, rotating with the seed, all in thorough; Tests/subset/data inputs compiled from TTX; other vendored fonts with layout / variations / kern, <= 40 kB) "
-            "x default options x requests by unicodes=: every non-empty subset of the focus alphabet (6 quick / 8 thorough layout-active characters), every single character, the whole character set and every co-size-1 set "
+            "x base options (default; layout_features=* for fonts whose features are all outside the default list, i.e. the AOTS 'test' feature) x requests by unicodes=: every non-empty subset of the focus alphabet (6 quick / 8 thorough layout-active characters), every single character, the whole character set and every co-size-1 set "
             "(thorough, rotating AOTS representatives: every pair of the whole set); by glyphs= and gids=: focus subsets of size <= 2; texts of length <= 2 (3) over the retained focus characters; same oracle; distinct = (font, kind, request)")
     chunk = 12
     required_witnesses = (
@@ -248,6 +257,7 @@ class CorpusRequests(_Base):
             info = info_of(key)
             U = char_universe(info)
             focus = self.focus[key]
+            bname, bkw = K.base_options(info)
             reqs = list(nonempty_subsets(focus))
             if len(U) > len(focus):
                 reqs += whole_set_family(U, focus, tier, seed, pairs=(key in self.reps and len(U) <= 120))
@@ -257,11 +267,11 @@ class CorpusRequests(_Base):
                 if t in seen:
                     continue
                 seen.add(t)
-                yield [key, "unicodes", req, "default", {}, focus, maxlen]
+                yield [key, "unicodes", req, bname, bkw, focus, maxlen]
             gl = sorted({info.index[info.cm[c]] for c in focus if c in info.cm})
             for kind in ("glyphs", "gids"):
                 for req in nonempty_subsets(gl, 2):
-                    yield [key, kind, req, "default", {}, focus, maxlen]
+                    yield [key, kind, req, bname, bkw, focus, maxlen]
 
     def bounds(self, tier, seed):
         return {"fonts": len(self.focus), "focus_alphabet": 6 if tier == "quick" else 8, "text_length": 2 if tier == "quick" else 3}
@@ -269,12 +279,12 @@ class CorpusRequests(_Base):
 
 class CorpusOptions(_Base):
     name = "corpus-options"
-    rule = ("the same corpus fonts x every single applicable option deviation x requests by unicodes=: focus subsets of size <= 2, the whole focus alphabet (thorough: co-size 1 too) and the whole character set; same oracle; distinct = (font, request, options)")
+    rule = ("the same corpus fonts (thorough: the non-AOTS fonts and the rotating AOTS representatives) x every single applicable option deviation on top of the font's base options (quick: every second deviation per font, the phase rotating with font and seed) x requests by unicodes=: focus subsets of size <= 2, the whole focus alphabet (thorough: co-size 1 too) and the whole character set; same oracle; distinct = (font, request, options)")
     chunk = 12
-    required_witnesses = ("options deviate from default", "desubroutinized a font with subroutines", "feature switched off by options", "retain_gids with emptied glyphs", "kern table kept")
+    required_witnesses = ("options deviate from default", "desubroutinized a font with subroutines", "feature switched off by options", "retain_gids with emptied glyphs")
 
     def setup(self, tier, seed):
-        self.focus, _reps = corpus_focus(tier, seed)
+        self.focus, self.reps = corpus_focus(tier, seed)
 
     def cases(self, tier, seed):
         maxlen = 2 if tier == "quick" else 3
@@ -287,7 +297,14 @@ class CorpusOptions(_Base):
                 reqs = small_and_cosmall(focus)
             if len(U) > len(focus):
                 reqs.append(U)
-            for optname, kw in K.option_sets(info, tier, seed, pairs=False)[1:]:
+            bname, _bkw = K.base_options(info)
+            if tier == "thorough" and F.corpus.is_aots(key) and key not in self.reps:
+                continue
+            for oi, (optname, kw) in enumerate(K.option_sets(info, tier, seed, pairs=False, base=True)):
+                if optname == bname:
+                    continue  # done by corpus-requests
+                if tier == "quick" and (oi + h64(key) + seed) % 2:
+                    continue
                 for req in reqs:
                     yield [key, "unicodes", req, optname, kw, focus, maxlen]
 
